@@ -5,13 +5,11 @@ use crate::cache::cache::{
 use crate::cache::error::Result;
 use rand::rngs::SmallRng;
 use rand::{Rng, SeedableRng};
-use std::sync::atomic;
 use std::sync::Arc;
 
 pub struct RandomPolicy {
     store: Arc<dyn Cache + Send + Sync>,
     memory_limit: u64,
-    memory_usage: atomic::AtomicU64,
 }
 
 impl RandomPolicy {
@@ -19,30 +17,31 @@ impl RandomPolicy {
         RandomPolicy {
             store,
             memory_limit,
-            memory_usage: atomic::AtomicU64::new(0),
         }
     }
 
-    fn incr_mem_usage(&self, value: u64) -> u64 {
-        let mut usage = self
-            .memory_usage
-            .fetch_add(value, atomic::Ordering::Release);
-
+    /// Evicts randomly chosen records, but never the one stored under
+    /// `written`, until the stored records fit under the memory limit or
+    /// nothing else is left to evict.
+    fn evict(&self, written: &KeyType) {
         let mut small_rng = SmallRng::from_entropy();
-        while usage > self.memory_limit {
-            debug!("Current memory usage: {}", usage);
+        while self.store.memory_usage() > self.memory_limit {
+            debug!("Current memory usage: {}", self.store.memory_usage());
             debug!("Memory limit: {}", self.memory_limit);
 
             let max = self.store.len();
-            if max == 0 {
-                self.decr_mem_usage(usage);
+            if max <= 1 {
                 break;
             }
-            let item = small_rng.gen_range(0..max);
+            let item = small_rng.gen_range(0..max - 1);
             let mut number_of_calls: usize = 0;
+            let written = written.clone();
             let res = self
                 .store
-                .remove_if(&mut move |_key: &KeyType, _value: &Record| -> bool {
+                .remove_if(&mut move |key: &KeyType, _value: &Record| -> bool {
+                    if *key == written {
+                        return false;
+                    }
                     if number_of_calls != item {
                         number_of_calls += 1;
                         return false;
@@ -53,19 +52,11 @@ impl RandomPolicy {
 
             res.iter().for_each(|record| match record {
                 Some(val) => {
-                    let len = val.1.len();
-                    debug!("Evicted: {} bytes from storage", len);
-                    usage = self.decr_mem_usage(len as u64);
+                    debug!("Evicted: {} bytes from storage", val.1.len());
                 }
                 None => {}
             });
         }
-        usage
-    }
-
-    fn decr_mem_usage(&self, value: u64) -> u64 {
-        self.memory_usage
-            .fetch_sub(value, atomic::Ordering::Release)
     }
 }
 
@@ -87,26 +78,20 @@ impl Cache for RandomPolicy {
     }
 
     fn set(&self, key: KeyType, record: Record) -> Result<SetStatus> {
-        let len = record.len() as u64;
-        self.incr_mem_usage(len);
-        self.store.set(key, record)
+        let result = self.store.set(key.clone(), record);
+        if result.is_ok() {
+            self.evict(&key);
+        }
+        result
     }
 
     fn delete(&self, key: KeyType, header: CacheMetaData) -> Result<Record> {
-        let result = self.store.delete(key, header);
-        if let Ok(record) = &result {
-            self.decr_mem_usage(record.len() as u64);
-        }
-        result
+        self.store.delete(key, header)
     }
 
     // Removes key value and returns as an option
     fn remove(&self, key: &KeyType) -> Option<(KeyType, Record)> {
-        let result = self.store.remove(key);
-        if let Some(key_value) = &result {
-            self.decr_mem_usage(key_value.1.len() as u64);
-        }
-        result
+        self.store.remove(key)
     }
 
     fn flush(&self, header: CacheMetaData) {
@@ -123,6 +108,10 @@ impl Cache for RandomPolicy {
 
     fn len(&self) -> usize {
         self.store.len()
+    }
+
+    fn memory_usage(&self) -> u64 {
+        self.store.memory_usage()
     }
 
     fn is_empty(&self) -> bool {
